@@ -72,6 +72,10 @@ class Project(object):
     def check_changes(self):
         # type: () -> t.Iterator[None]
         self._context_cache.clear()
+        # Cached modules keep what they got from the modules they import
+        # (resolved names, star imports): a changed file outdates all of them.
+        if any(m.changed for m in self._module_cache.values()):
+            self._module_cache.clear()
         yield
 
     def get_nmodule(self, name, filename):
